@@ -41,7 +41,7 @@ def gen_cases(seed, tier):
                  k=int(rng.integers(3, 9)), devices=1,
                  ov=dict(newdir=bool(rng.random() < 0.7), f=int(rng.choice([0, 1, 4])) or None,
                          m=int(rng.choice([0, 1, 4])) or None, asyn=[None, True, False][int(rng.integers(0, 3))]),
-                 period=int(rng.integers(2, 5)), random_seed=int(rng.integers(0, 1000)),
+                 period=int(rng.integers(2, 5)), random_seed=int(rng.integers(0, 1000)), vkw=_variant(sv, rng),
                  errors=bool(i % 3 == 0))
         if nm == "tabular":
             spec = gen.random_spec(rng, smin=3, smax=20, avg="unichain" if sv == "rvi" else None)
@@ -50,6 +50,14 @@ def gen_cases(seed, tier):
             c.update(kind="shipped", name=nm, params=shipgen.draw(rng, nm, 20000))
         cases.append(c)
     return cases
+
+
+def _variant(sv, rng):
+    from vf import ckpt
+
+    v = ckpt.variant_kw(sv, rng)
+    v.pop("period", None)
+    return v
 
 
 def _norm(x):
@@ -76,6 +84,7 @@ def run_case(case):
             kw["period"] = 2
     if sv == "sa":
         kw["random_seed"] = case["random_seed"]
+    kw.update(case.get("vkw", {}))
     kw.update(epsilon=1e-9 * scale, checkpoint_dir=D, checkpoint_frequency=case["f"], max_checkpoints=case["m"],
               enable_async_checkpointing=case["asyn"])
     n_cmp = 0
@@ -138,6 +147,9 @@ def run_case(case):
                 target.call(f"load_checkpoint(step={step}) [{where}]", r.load_checkpoint, D, step=step)
             sig = ckpt.state_sig(sv, r.solver_state)
             want_step = steps[-1] if step is None else step
+            if sig["iteration"] != want_step:
+                return dict(status="violation", kind="step-label",
+                            detail=f"{where}: restore(step={step}) chose step {want_step} but the restored solver is at iteration {sig['iteration']}")
             exp = {k_: v_ for k_, v_ in snap[want_step].items() if k_ != "step"}
             if sig != exp:
                 diff = [k_ for k_ in exp if sig.get(k_) != exp.get(k_)]
@@ -147,11 +159,33 @@ def run_case(case):
                                    f"{ {k_: exp.get(k_) for k_ in diff} }")
             if j == 0:
                 # later saves follow the overrides and never touch the original directory
+                rlog = ckpt.wrap_save(r, sv, [])
                 target.solve(r, 2)
                 ckpt.wait(r)
                 if newD:
                     if not (ckpt.listing(newD) or []) and r.checkpoint_frequency <= 2:
                         return dict(status="violation", kind="override", detail=f"{where}: nothing saved to the new directory")
+                # the directory the restored solver saves into is restored again, twice, with saves in
+                # between: the default step must be the latest completed step every time
+                X = os.path.abspath(str(r.checkpoint_dir))
+                for rep in range(2):
+                    want = {k_: v_ for k_, v_ in rlog[-1].items() if k_ != "step"}
+                    if has_cfg:
+                        r2 = target.call(f"re-restore #{rep + 1} of {X}", cls.restore, X,
+                                         new_checkpoint_dir=os.path.join(base, f"again{rep}"), checkpoint_frequency=1000)
+                    else:
+                        r2 = target.make_solver(sv, problem, **{**kw, "checkpoint_dir": os.path.join(base, f"again{rep}")})
+                        target.call(f"re-load_checkpoint #{rep + 1} of {X}", r2.load_checkpoint, X)
+                    sig2 = ckpt.state_sig(sv, r2.solver_state)
+                    if sig2 != want:
+                        return dict(status="violation", kind="stale-latest",
+                                    detail=f"{where}: after the restored solver saved up to iteration {want['iteration']} into {os.path.basename(X)}, "
+                                           f"a default-step restore of that directory returned iteration {sig2['iteration']} "
+                                           f"(restore #{rep + 1} of this directory in this process)")
+                    ckpt.wait(r2)
+                    n_cmp += 1
+                    target.solve(r, 1)
+                    ckpt.wait(r)
             ckpt.wait(r)
             n_cmp += 1
             if newD and ckpt.dir_digest(D) != before:
